@@ -1,7 +1,8 @@
 (* Properties/C18.v — C18: repeated authentication failures lock an address out for the ban period.
    Statements only; every proof is a single `exact`.  Model: Model/Lockout.v; current_variant = the code
    after fixes/C18-unban-only-if-expired.diff, fixes/C18-ban-never-weakened.diff and
-   fixes/C18-anon-registration-keeps-failures.diff, pinned_variant = the tree as found.  A system state is (shared state, list of threads); `runs V C s sched` executes the
+   fixes/C18-anon-registration-keeps-failures.diff and fixes/C18-blacklist-any-active-entry.diff, pinned_variant =
+   the tree as found.  A system state is (shared state, list of threads); `runs V C s sched` executes the
    schedule `sched` (a list of thread indices: ANY number of threads, ANY interleaving; clock threads
    advance time by arbitrary amounts, runner threads execute the goroutines spawned by IsBanned /
    IsAllowed in any order at any later point; every mutex-protected section is one step).
@@ -15,7 +16,8 @@ Open Scope Z_scope.
    IsBanned(ip) answers true in EVERY state reachable by EVERY schedule up to the deadline (for ever for a
    permanent ban): failures, successes, queries, handshakes, manual bans, both halves of clean-ups, spawned
    unbans and clock ticks of any number of threads, interleaved arbitrarily.  The only exclusions: no thread
-   program contains the administrative UnbanIP(ip) or a process restart (see C18_ban_lost_on_restart_refuted). *)
+   program contains the administrative UnbanIP(ip) or a process restart (bans are process-local by design:
+   C18_restart_clears_memory_only_state). *)
 Theorem C18_locked_out :
   forall C ip dlo (s : sst) sched,
   threads_lock ip s -> covers (bans (fst s)) ip dlo ->
@@ -99,53 +101,68 @@ Proof. exact no_false_refusal_premises_satisfiable. Qed.
 Print Assumptions C18_no_false_refusal_premises_satisfiable.
 
 (* (3) a blacklisted, not whitelisted address is refused by IsAllowed until the entry's deadline (for ever for a
-   permanent entry) under every schedule — ACROSS ANY NUMBER OF RESTARTS AT ANY POINTS: the thread programs may
-   contain CRestart anywhere (everything held in memory is dropped, the lists are rebuilt from the store, where
-   a temporary record lives exactly until its expiry and a permanent one has none).  The entry is the one
-   findInList returns: the exact address, else the CIDR entry containing it (entry_covers).  Excluded only:
-   administrative AddToBlacklist / RemoveFromBlacklist / AddToWhitelist on the address or on its CIDR key
-   (the whitelist has priority over the blacklist, as documented) *)
+   permanent entry) under every schedule.  k is ANY list key matching the address (keys_of: the exact address, the
+   /28 or the /27 containing it - ranges overlap); the refusal is decided by the existence of an in-force matching
+   record, so every OTHER entry matching the address, exact or range, with any deadline, may be added, removed,
+   lapse and be collected freely, and the order in which a lookup meets them is irrelevant.  It holds ACROSS ANY
+   NUMBER OF RESTARTS AT ANY POINTS: the thread programs may contain CRestart anywhere (everything held in memory
+   is dropped, the lists are rebuilt from the store, where a temporary record lives exactly until its expiry and a
+   permanent one has none).  Excluded only: administrative AddToBlacklist / RemoveFromBlacklist on key k itself and
+   AddToWhitelist on a key matching the address (the whitelist has priority over the blacklist, as documented) *)
 Theorem C18_blacklisted_refused :
-  forall C ip dlo (s : sst) sched,
-  Forall (thr_bl ip) (snd s) -> wl_in (wl (fst s)) ip = false -> entry_covers (bl (fst s)) ip dlo ->
+  forall C ip k dlo (s : sst) sched,
+  In k (keys_of ip) ->
+  Forall (thr_bl ip k) (snd s) -> wl_in (wl (fst s)) ip = false -> covers (bl (fst s)) k dlo ->
   let s' := runs current_variant C s sched in
   within (now (fst s')) dlo -> is_allowed (fst s') ip = false.
 Proof. exact blacklisted_refused. Qed.
 Print Assumptions C18_blacklisted_refused.
 
-(* non-vacuity of (3) with restarts: permanent exact entry, permanent CIDR entry, temporary entry; two restarts; the
-   temporary entry is refused with time left and let through once lapsed, addresses outside stay allowed *)
+(* the answer the repaired IsAllowed computes is that state function *)
+Theorem C18_allowed_answer_is_state_function :
+  forall s ip, snd (allowed_dec current_variant s ip) = is_allowed s ip.
+Proof. exact allowed_dec_current. Qed.
+Print Assumptions C18_allowed_answer_is_state_function.
+
+(* non-vacuity of (3) with restarts: permanent exact entry, permanent /28 entry, temporary entry; two restarts; other
+   entries matching the address edited meanwhile; the temporary entry is refused with time left and let through once
+   lapsed, addresses outside stay allowed *)
 Theorem C18_blacklist_survives_restarts_example :
   let s1 := runs current_variant wit_cfg (init_sh, wit5_threads) [0; 0; 0]%nat in
-  Forall (thr_bl 40) [LProg PIdle [CRestart; CAllowed 7; CAllowed 40; CRestart; CBlAdd 9 5; CBlRm 7] []; LClock [100; 1000]; LRunBl [O]] /\
-  wl_in (wl (fst s1)) 40 = false /\ entry_covers (bl (fst s1)) 40 None /\ entry_covers (bl (fst s1)) 7 None /\
-  entry_covers (bl (fst s1)) 9 (Some 500) /\
+  In 1002%N (keys_of 40) /\
+  Forall (thr_bl 40 1002) [LProg PIdle [CRestart; CAllowed 7; CBlAdd 40 5; CRestart; CBlAdd 2001 5; CBlRm 40] []; LClock [100; 1000]; LRunBl [O]] /\
+  wl_in (wl (fst s1)) 40 = false /\ covers (bl (fst s1)) 1002 None /\ covers (bl (fst s1)) 7 None /\
+  covers (bl (fst s1)) 9 (Some 500) /\
   nth_error (snd (runs current_variant wit_cfg s1 [1; 0; 0; 0; 0; 0; 1; 0; 0; 2; 0; 0; 0]%nat)) 0
   = Some (LProg PIdle [] [0; 0; 0; 0; 0; 0; 0; 0; 0; 1; 0; 0; 1]%N).
 Proof. exact blacklist_survives_restarts_example. Qed.
 Print Assumptions C18_blacklist_survives_restarts_example.
 
-(* the range case of entry_covers needs `no exact entry for the address`: a lapsed exact entry is found first and
-   the address is let through although its range entry is in force (known finding expired-exact-entry-shadows-cidr) *)
-Theorem C18_expired_exact_entry_shadows_range_refuted :
-  exists threads sched,
-    let s2 := runs current_variant wit_cfg (init_sh, threads) sched in
-    covers (bl (fst s2)) (cidr_of 40) None /\ wl_in (wl (fst s2)) 40 = false /\
-    nth_error (snd s2) 0 = Some (LProg PIdle [] [0; 0; 1]%N).
-Proof. exact expired_exact_entry_shadows_range_refuted. Qed.
-Print Assumptions C18_expired_exact_entry_shadows_range_refuted.
+(* fourth defect of the pinned tree: IsAllowed judged by the FIRST matching record only (the exact key, then the ranges
+   in map order): (a) a lapsed exact entry found before the permanent /28 entry, (b) the lapsed /28 entry met before the
+   permanent /27 entry containing it - the address is let through (answer 1) although an entry covering it is in force *)
+Theorem C18_first_match_lookup_refuted :
+  exists ta tb sched,
+    let sa := runs (first_match_variant 1) wit_cfg (init_sh, ta) sched in
+    let sb := runs (first_match_variant 1) wit_cfg (init_sh, tb) sched in
+    In 1002%N (keys_of 40) /\ In 2001%N (keys_of 40) /\
+    covers (bl (fst sa)) 1002 None /\ wl_in (wl (fst sa)) 40 = false /\
+    nth_error (snd sa) 0 = Some (LProg PIdle [] [0; 0; 1]%N) /\
+    covers (bl (fst sb)) 2001 None /\ wl_in (wl (fst sb)) 40 = false /\
+    nth_error (snd sb) 0 = Some (LProg PIdle [] [0; 0; 1]%N).
+Proof. exact first_match_lookup_refuted. Qed.
+Print Assumptions C18_first_match_lookup_refuted.
 
-(* ... whereas the ban list of the BruteForceProtector is process-local: (1) excludes CRestart (threads_lock), and
-   with a restart it is false of the code as it is — a permanent ban is gone after the restart (known finding
-   ban-lost-on-restart; persisting the ban list is a redesign, the type's own comment plans a shared store) *)
-Theorem C18_ban_lost_on_restart_refuted :
+(* a model fact, not a finding: failure records and bans are process-local by design and the property quantifies over
+   histories and schedules of one process; a restart drops them, which is why (1) excludes CRestart while (3) does not *)
+Theorem C18_restart_clears_memory_only_state :
   exists C ip threads pre sched,
     let s1 := runs current_variant C (init_sh, threads) pre in
     let s2 := runs current_variant C s1 sched in
     covers (bans (fst s1)) ip None /\ is_banned (fst s1) ip = true /\
     nth_error (snd s2) 0 = Some (LProg PIdle [] [0; 1; 0; 0]%N) /\ is_banned (fst s2) ip = false.
-Proof. exact ban_lost_on_restart_refuted. Qed.
-Print Assumptions C18_ban_lost_on_restart_refuted.
+Proof. exact restart_clears_memory_only_state. Qed.
+Print Assumptions C18_restart_clears_memory_only_state.
 
 (* (4) token bucket, exact arithmetic (tokens scaled by ticks-per-second): from ANY well-formed bucket state,
    over ANY timed sequence of Take(n>=0) and garbage collections with a monotone clock, the admitted tokens
@@ -198,10 +215,11 @@ Proof. exact BucketMap.no_recheck_refuted. Qed.
 Print Assumptions C18_no_recheck_refuted.
 
 (* (5) gate order of HandleHandshake: a handshake that finds the address blacklisted (gate 1) or banned
-   (gate 2) ends there with that refusal, leaving the state untouched (no failure recorded, no token taken,
-   the credential store is not consulted) *)
+   (gate 2) ends there with that refusal: no failure recorded, no ban, no token taken, lists unchanged, the
+   credential store not consulted (gate 1 may only queue the asynchronous removal of lapsed entries) *)
 Theorem C18_gate_blacklisted :
-  forall V C ip k s, is_allowed s ip = false -> start V C (CHs ip k) s = (PIdle, s, Some 0%N).
+  forall C ip k s, is_allowed s ip = false ->
+  exists extra, start current_variant C (CHs ip k) s = (PIdle, set_bl s (bl s) (pendbl s ++ extra), Some 0%N).
 Proof. exact gate_blacklisted. Qed.
 Print Assumptions C18_gate_blacklisted.
 
@@ -251,6 +269,6 @@ Theorem C18_premises_satisfiable :
   let s1 := runs current_variant wit_cfg (init_sh, nv_threads) [0; 2; 1; 1]%nat in
   threads_lock 7 s1 /\ covers (bans (fst s1)) 7 (ban_deadline wit_cfg 100 DTemp) /\
   within (now (fst s1)) (ban_deadline wit_cfg 100 DTemp) /\
-  Forall (thr_bl 7) (snd s1) /\ bucket_cfg_ok wit_cfg.
+  Forall (thr_bl 7 7) (snd s1) /\ bucket_cfg_ok wit_cfg.
 Proof. exact premises_satisfiable. Qed.
 Print Assumptions C18_premises_satisfiable.
